@@ -40,6 +40,75 @@ def _max(repo: Repo) -> int:
     return repo.fold(repo.module_assign(MM, "MAX_USER_DEFINED_CONTROLLERS"))
 
 
+def user_defined_fresh(repo: Repo, rep, P: str, rule: str):
+    """MetaModule.__init__ builds MAX fresh UserDefined objects per instance, before the base constructor runs
+    (which seeds values through the class-level proxies).  Shared with C09 and C17."""
+    mm = repo.cls("MetaModule", module=MM)
+    rel = mm.file.rel
+    MAXN = _max(repo)
+    minit = repo.own_method(mm, "__init__")
+    con = f"{rel}:MetaModule.__init__"
+    body = stmts_of(minit)
+    i_ud = i_super = None
+    val = None
+    for i, st in enumerate(body):
+        if isinstance(st, ast.Assign) and any(norm(t) == "self.user_defined" for t in st.targets) and i_ud is None:
+            i_ud, val = i, st.value
+        if i_super is None and any(isinstance(c, ast.Call) and isinstance(c.func, ast.Attribute) and c.func.attr == "__init__"
+                                   and (norm(c.func.value).startswith("super(") or norm(c.func.value) in ("Module", "BaseMetaModule"))
+                                   for c in ast.walk(st)):
+            i_super = i
+    if i_ud is None:
+        rep.violation(f"{P}.{rule}", con, "; ".join(norm(x) for x in body)[:160],
+                      "MetaModule.__init__ no longer builds the per-instance list of user-defined controllers", f"{rel}:{minit.lineno}")
+        return
+    where = f"{rel}:{body[i_ud].lineno}"
+    v = val
+    while isinstance(v, ast.Call) and norm(v.func) in ("list", "tuple") and len(v.args) == 1:
+        v = v.args[0]
+    fresh = None
+    if isinstance(v, (ast.ListComp, ast.GeneratorExp)) and len(v.generators) == 1 and not v.generators[0].ifs:
+        g = v.generators[0]
+        elt = v.elt
+        k = repo.class_of_expr(elt.func, mm, mm.file) if isinstance(elt, ast.Call) else None
+        try:
+            count = len(repo.fold(g.iter, ci=mm)) if isinstance(g.iter, ast.Call) and norm(g.iter.func) == "range" else None
+        except (NotConst, TypeError):
+            count = None
+        if k is not None and k.name == "UserDefined" and isinstance(g.target, ast.Name) and len(elt.args) == 1 \
+                and norm(elt.args[0]) == g.target.id:
+            if count == MAXN:
+                fresh = True
+            else:
+                rep.violation(f"{P}.{rule}", con, norm(val), f"{count} user-defined controllers are built, the format has {MAXN}", where)
+                return
+        elif isinstance(elt, ast.Call) and norm(elt.func) in ("deepcopy", "copy.deepcopy", "copy", "copy.copy"):
+            fresh = True
+    elif isinstance(v, ast.Call) and norm(v.func) in ("deepcopy", "copy.deepcopy"):
+        fresh = True
+    elif isinstance(v, ast.Name) or (isinstance(v, ast.Subscript) and isinstance(v.value, ast.Name)) or isinstance(v, ast.Attribute):
+        root = v
+        while isinstance(root, (ast.Subscript, ast.Attribute)):
+            root = root.value
+        local = {n.id for n in ast.walk(minit) if isinstance(n, ast.Name) and isinstance(n.ctx, ast.Store)} | {a.arg for a in minit.args.args}
+        if isinstance(root, ast.Name) and root.id not in local:
+            fresh = False
+    if fresh is False:
+        rep.violation(f"{P}.{rule}", con, norm(body[i_ud]),
+                      "the UserDefined controller objects come from module/class-level state: every MetaModule shares them, so value types, "
+                      "labels and attachment set through one MetaModule (or by loading one) show up in all others", where)
+        return
+    if fresh is None:
+        rep.inconclusive(f"{P}.{rule}", con, norm(body[i_ud]), "construction of the user-defined controller list not recognised", where)
+        return
+    if i_super is not None and i_ud > i_super:
+        rep.violation(f"{P}.{rule}", con, f"{norm(body[i_super])[:60]} … {norm(body[i_ud])[:60]}",
+                      "the per-instance UserDefined list is built after Module.__init__ runs, which already seeds values through the proxies",
+                      where)
+        return
+    rep.ok(f"{P}.{rule}", con, norm(body[i_ud])[:120], f"{MAXN} fresh per-instance controllers, built before the base constructor")
+
+
 # ------------------------------------------------------------------------------------ R1
 def naming(repo: Repo, rep, P: str):
     mm = repo.cls("MetaModule", module=MM)
@@ -86,20 +155,7 @@ def naming(repo: Repo, rep, P: str):
         rep.ok(f"{P}.R1", f"{rel}:UserDefined.__init__", "attached=False", "user controllers start detached", nontrivial=False)
     else:
         rep.violation(f"{P}.R1", f"{rel}:UserDefined.__init__", s[:160], "user-defined controllers must start detached", f"{rel}:{init.lineno}")
-    minit = repo.own_method(mm, "__init__")
-    body = [norm(x) for x in stmts_of(minit)]
-    try:
-        i_ud = next(i for i, x in enumerate(body) if x.replace(" ", "") == "self.user_defined=[UserDefined(i)foriinrange(MAX_USER_DEFINED_CONTROLLERS)]")
-        i_super = next(i for i, x in enumerate(body) if "super(" in x and "__init__" in x)
-        ok = i_ud < i_super
-    except StopIteration:
-        ok = False
-    if ok:
-        rep.ok(f"{P}.R1", f"{rel}:MetaModule.__init__", "self.user_defined = [UserDefined(i) for i in range(MAX)] before super().__init__",
-               "per-instance controllers exist before the base constructor seeds values through the proxies")
-    else:
-        rep.violation(f"{P}.R1", f"{rel}:MetaModule.__init__", "; ".join(body)[:200],
-                      "the per-instance UserDefined list must hold MAX objects and be built before Module.__init__ runs", f"{rel}:{minit.lineno}")
+    user_defined_fresh(repo, rep, P, "R1")
     # proxy → per-instance object by index
     px = repo.cls("UserDefinedProxy", module=MM)
     ctl = norm(repo.own_method(px, "controller"))
@@ -345,3 +401,7 @@ def shared(repo: Repo, rep, P: str):
     c02.sibling_writers(repo, rep, P)
     from . import c12
     c12.pack_pairs(repo, rep, P, "R6", which=("SMII",))
+    # a nested load (embedded project) must hand the strictness flag back to the enclosing load as it found it:
+    # otherwise the rest of the outer MetaModule (stored user-controller values beyond the known range) raises
+    from . import c18
+    c18.restore_rule(repo, rep, P)
